@@ -493,9 +493,6 @@ pub open spec fn invs_v(v: Seq<Invoke>) -> Seq<InvV> {
     v.map_values(|i: Invoke| invv(i))
 }
 
-/// the bytes read_data_arc consumes (uninterpreted; the value codec is not under contract)
-pub uninterp spec fn d_data_arc(s: Seq<u8>) -> Dec<DataArc>;
-
 pub open spec fn d_pair(s: Seq<u8>) -> Dec<(Seq<u8>, DataArc)> {
     match d_str(s) {
         Dec::Ok(k, s1) => match d_data_arc(s1) {
